@@ -411,4 +411,26 @@ theorem nonlegit_frame (s : St) (a : Addr) (k : Kind) (h : ¬ Legit s k) :
   simp [Legit] at h
   simp [rtpLatch, h]
 
+/-! ### a signaling reset clears the table -/
+
+/-- `reset_latch` leaves either no window or a FRESH one: no candidates, no packets counted, the
+configured size -/
+theorem resetLatch_fresh (s : St) (p : Prob) (h : (resetLatch s).prob = some p) :
+    p.cands = [] ∧ p.total = 0 ∧ p.max = s.maxPackets := by
+  simp only [resetLatch, freshProb] at h
+  split at h <;> simp at h
+  subst h; simp
+
+theorem setFromSignaling_fresh (s : St) (a : Addr) (p : Prob) (h : (setFromSignaling s a).prob = some p) :
+    p.cands = [] ∧ p.total = 0 ∧ p.max = s.maxPackets :=
+  resetLatch_fresh s p (by simpa [setFromSignaling] using h)
+
+/-- a changed SSRC expectation empties the table and the packet count (window size kept) -/
+theorem setExpectedSsrc_fresh (s : St) (v : Nat) (hv : s.expected ≠ v) (p : Prob)
+    (h : (setExpectedSsrc s v).prob = some p) : p.cands = [] ∧ p.total = 0 := by
+  simp only [setExpectedSsrc, hv, ne_eq, not_false_eq_true, ↓reduceIte] at h
+  simp at h
+  obtain ⟨q, _, rfl⟩ := h
+  simp
+
 end RtcModel.Latch
